@@ -1932,8 +1932,8 @@ Matrix22<T>::setRotation (S r) IMATH_NOEXCEPT
 {
     S cos_r, sin_r;
 
-    cos_r = cos ((T) r);
-    sin_r = sin ((T) r);
+    cos_r = cos ((S) r);
+    sin_r = sin ((S) r);
 
     x[0][0] = cos_r;
     x[0][1] = sin_r;
@@ -3110,8 +3110,8 @@ Matrix33<T>::setRotation (S r) IMATH_NOEXCEPT
 {
     S cos_r, sin_r;
 
-    cos_r = cos ((T) r);
-    sin_r = sin ((T) r);
+    cos_r = cos ((S) r);
+    sin_r = sin ((S) r);
 
     x[0][0] = cos_r;
     x[0][1] = sin_r;
@@ -4623,13 +4623,13 @@ Matrix44<T>::setEulerAngles (const Vec3<S>& r) IMATH_NOEXCEPT
 {
     S cos_rz, sin_rz, cos_ry, sin_ry, cos_rx, sin_rx;
 
-    cos_rz = cos ((T) r.z);
-    cos_ry = cos ((T) r.y);
-    cos_rx = cos ((T) r.x);
+    cos_rz = cos ((S) r.z);
+    cos_ry = cos ((S) r.y);
+    cos_rx = cos ((S) r.x);
 
-    sin_rz = sin ((T) r.z);
-    sin_ry = sin ((T) r.y);
-    sin_rx = sin ((T) r.x);
+    sin_rz = sin ((S) r.z);
+    sin_ry = sin ((S) r.y);
+    sin_rx = sin ((S) r.x);
 
     x[0][0] = cos_rz * cos_ry;
     x[0][1] = sin_rz * cos_ry;
